@@ -23,7 +23,7 @@ func init() {
 		ID:    "C20",
 		Level: "fault_enumeration",
 		Rule: "every assignment of {ok, error, error-with-bytes, empty signature (nil), empty signature (zero-length), error of a Temporary()/Timeout() type, wrapped context.DeadlineExceeded, io.EOF with half a signature} to each key call of Sign1Message.Sign, Sign1, UntaggedSign1Message.Sign, Sign1Untagged, Signature.Sign, Countersignature.Sign, Countersign0, SignHashEnvelope (1 call each) and SignMessage.Sign with n = 1..4 signers (8^n vectors), with spy signers; " +
-			"every assignment of {ok, ErrVerification, other error} to each verifier call of Sign1/Untagged/Signature/Countersignature/VerifyCountersign0/VerifyHashEnvelope and SignMessage.Verify n = 1..4 (3^n); " +
+			"every assignment of {ok, ErrVerification, other error} to each verifier call of Sign1/Untagged/Signature/Countersignature/VerifyCountersign0/VerifyHashEnvelope and SignMessage.Verify n = 1..4 (4^n with a panicking verifier as fourth outcome, plain and digest-capable verifiers); " +
 			"real built-in signers of all 7 algorithms with entropy readers failing after 0/1/8/31/64 bytes, EOF, and one-byte-at-a-time readers. Distinct = (entry point, fault vector). Thorough repeats the grid over random header content.",
 		Assume: []string{"Countersign0 returns a bare signature, not a message: an empty signature from a misbehaving signer is not judged there", "go1.23 standard library honours the caller's entropy reader for ECDSA and RSA-PSS"},
 		Run:    runC20,
@@ -437,43 +437,82 @@ func runC20(c *Ctx) {
 				if fe != nil && (err == nil || !errors.Is(err, fe)) {
 					rec.Violate("verifier-error-lost", key, fmt.Sprintf("verifier returned %q, the call returned %v", fe, err), in)
 				}
-			}
-		}
-		for n := 1; n <= 4; n++ {
-			total := 1
-			for j := 0; j < n; j++ {
-				total *= 3
-			}
-			for v := 0; v < total; v++ {
-				m := &cose.SignMessage{Headers: cose.Headers{Protected: cose.ProtectedHeader{}, Unprotected: cose.UnprotectedHeader{}}, Payload: payload}
-				vs := make([]cose.Verifier, n)
-				x := v
-				name := ""
-				var firstErr error
-				for j := 0; j < n; j++ {
-					f := x % 3
-					x /= 3
-					m.Signatures = append(m.Signatures, &cose.Signature{Headers: mkHeaders(), Signature: mon.FixedSig})
-					vs[j] = &mon.SpyVerifier{Alg: alg, Err: vfaults[f]}
-					name += vnames[f] + ","
-					if firstErr == nil && vfaults[f] != nil {
-						firstErr = vfaults[f]
+				if f == 0 {
+					// a verifier that crashes: the panic reaches the caller or becomes an error, never success
+					for _, dc := range []bool{false, true} {
+						var pv cose.Verifier = &mon.SpyVerifier{Alg: alg, Panic: "verifier backend crashed"}
+						if dc {
+							pv = &mon.SpyDigestVerifier{SpyVerifier: mon.SpyVerifier{Alg: alg, Panic: "verifier backend crashed"}}
+						}
+						var perr error
+						panicked, _, _ := mon.Try(func() { perr = run(pv) })
+						rec.Eval(1)
+						rec.Class(fmt.Sprintf("%s/panic/digest=%v/propagated=%v", name, dc, panicked))
+						if !panicked && perr == nil {
+							rec.Violate("verifier-error-lost", name+"/panic", "the verifier panicked and the call returned nil", in)
+						}
 					}
 				}
-				in := map[string]any{"entry": "SignMessage.Verify", "n": n, "vector": name, "round": round}
-				var err error
-				if guard(rec, "SignMessage.Verify", in, func() { err = m.Verify(ext, vs...) }) {
-					continue
+			}
+		}
+		// (4^n vectors: ok, ErrVerification, other error, panic; with plain verifiers and with verifiers that
+		//  also offer VerifyDigest; in round 0 all slots carry byte-identical protected headers)
+		for _, digestCapable := range []bool{false, true} {
+			for n := 1; n <= 4; n++ {
+				total := 1
+				for j := 0; j < n; j++ {
+					total *= 4
 				}
-				rec.Eval(1)
-				rec.Event("SignMessage.Verify")
-				key := fmt.Sprintf("SignMessage.Verify/n=%d/%s", n, name)
-				rec.Class(key)
-				if firstErr == nil && err != nil {
-					rec.Violate("ok-vector-failed", key, "all verifiers accepted but Verify failed: "+err.Error(), in)
-				}
-				if firstErr != nil && (err == nil || (!errors.Is(err, cose.ErrVerification) && !errors.Is(err, errOther))) {
-					rec.Violate("verifier-error-lost", key, fmt.Sprintf("a verifier failed, Verify returned %v", err), in)
+				for v := 0; v < total; v++ {
+					m := &cose.SignMessage{Headers: cose.Headers{Protected: cose.ProtectedHeader{}, Unprotected: cose.UnprotectedHeader{}}, Payload: payload}
+					vs := make([]cose.Verifier, n)
+					x := v
+					name := ""
+					firstBad := -1 // 0..2 index into vfaults, 3 = panic
+					for j := 0; j < n; j++ {
+						f := x % 4
+						x /= 4
+						m.Signatures = append(m.Signatures, &cose.Signature{Headers: mkHeaders(), Signature: mon.FixedSig})
+						sv := mon.SpyVerifier{Alg: alg}
+						if f < 3 {
+							sv.Err = vfaults[f]
+							name += vnames[f] + ","
+						} else {
+							sv.Panic = "verifier backend crashed"
+							name += "panic,"
+						}
+						if digestCapable {
+							vs[j] = &mon.SpyDigestVerifier{SpyVerifier: sv}
+						} else {
+							vs[j] = &sv
+						}
+						if firstBad < 0 && f != 0 {
+							firstBad = f
+						}
+					}
+					in := map[string]any{"entry": "SignMessage.Verify", "n": n, "vector": name, "round": round, "digest_capable_verifiers": digestCapable}
+					var err error
+					panicked, _, _ := mon.Try(func() { err = m.Verify(ext, vs...) })
+					rec.Eval(1)
+					rec.Event("SignMessage.Verify")
+					key := fmt.Sprintf("SignMessage.Verify/n=%d/digest=%v/%s", n, digestCapable, name)
+					rec.Class(key)
+					switch {
+					case firstBad < 0:
+						if err != nil || panicked {
+							rec.Violate("ok-vector-failed", key, fmt.Sprintf("all verifiers accepted but Verify failed: %v (panicked=%v)", err, panicked), in)
+						}
+					case firstBad == 3:
+						if !panicked && err == nil {
+							rec.Violate("verifier-error-lost", key, "a verifier panicked and Verify returned nil", in)
+						}
+					default:
+						if panicked {
+							rec.Event("SignMessage.Verify:later-panic-reached") // verifiers after a failing one were still consulted: not judged
+						} else if err == nil || (!errors.Is(err, cose.ErrVerification) && !errors.Is(err, errOther)) {
+							rec.Violate("verifier-error-lost", key, fmt.Sprintf("a verifier failed, Verify returned %v", err), in)
+						}
+					}
 				}
 			}
 		}
